@@ -132,6 +132,7 @@ type Exec struct {
 	harness        *Harness
 	loopBound      int
 	allocLimit     int
+	fatalIsFinding bool  // log.Fatal on a path is reported (the harness scripted no failure)
 	allocTotal     int   // bytes allocated by make since AllocLimit was set
 	workLimit      int64 // instructions allowed after WorkLimit was set (0: none)
 	workBase       int64
